@@ -368,3 +368,21 @@ Proof.
     apply (lookup_app_some _ _ (imported st'')) in L. fold (visible st'') in L.
     cbn [cap_value opt_value]. unfold ref_value. rewrite L. split; reflexivity.
 Qed.
+
+(* the boolean spellings of the lexer have their conventional meaning *)
+Lemma bool_spellings_standard : forall sp,
+  lex_bool sp = match spec_bool sp with Some b => Ok (VBool b) | None => Err EGrammar end.
+Proof.
+  intro sp. unfold lex_bool, spec_bool, bool_spellings, bool_true_spellings,
+    kw_true, kw_false, kw_yes, kw_no. cbn [text_mem].
+  destruct (text_eqb sp [116; 114; 117; 101]), (text_eqb sp [102; 97; 108; 115; 101]),
+           (text_eqb sp [121; 101; 115]), (text_eqb sp [110; 111]); reflexivity.
+Qed.
+
+Lemma lex_string_standard : forall raw,
+  lex_string raw = match spec_unescape raw [] with
+                   | LexOk v => Ok (VStr v)
+                   | LexInvalidEscape => Err EInvalidEscape
+                   | LexIndexError => Err ECrashIndex
+                   end.
+Proof. intro raw. unfold lex_string. rewrite escapes_standard. reflexivity. Qed.
